@@ -30,6 +30,7 @@ var (
 	flagSelf    = flag.Bool("selftest", false, "print one event log line per run (determinism self-test)")
 	flagMode    = flag.String("mode", "", "sub-mode of the property's check")
 	flagMaxFail = flag.Int("maxfail", 3, "stop after this many failures")
+	flagRefFile = flag.String("ref", "", "C12: reference table written by a -mode ref run in another process")
 	flagCands   = flag.String("candidates", "", "print one-step reductions of the scenario in this replay file, one JSON per line")
 )
 
